@@ -208,6 +208,17 @@ func AsmMulLoUF(name string) {}
 // briefly so that started goroutines get to their blocking points.
 func Yield() { time.Sleep(20 * time.Millisecond) }
 
+// OnWait registers the environment ("rely") step for (*sync.Cond).Wait: under the symbolic
+// engine every Wait releases the Cond's lock, runs f (the state changes other goroutines may
+// make, e.g. calls of the real mutators with symbolic arguments), re-acquires the lock and
+// returns; at most WaitBound (default 2) waits per path, further ones are outside the claim.
+// Natively this only records f: sync.Cond.Wait is the real one, so a harness whose native run
+// can reach a Wait must itself start a goroutine that performs the same steps in the same order.
+func OnWait(f func()) {}
+
+// WaitBound sets the number of Cond.Wait environment steps allowed on one path.
+func WaitBound(n int) {}
+
 // Panics runs f and reports whether it panicked (violations and failed assumptions pass through).
 func Panics(f func()) (p bool) {
 	defer func() {
